@@ -39,6 +39,9 @@ def gen_case(rng):
             if rng.random() < 0.4:      # metadata may record some other rate: an explicit argument (zero included) wins
                 c["meta_drift"] = rng.choice([1.0, -1.5, 0.5, 2.0]) * unit
         c["D"] = D
+        if rng.random() < 0.25:
+            # a frame whose time axis does not start at 0 (what Cadence.consolidate returns: absolute times): row i is still i*dt after row 0
+            c["ts_origin"] = rng.choice([1.7e9, 37.5, 3600.0])
     elif k < 0.85:
         c["op"] = ["integrate", rng.choice(["t", "f", 0, 1]), rng.choice(["mean", "sum", "s", "m"]), rng.random() < 0.5]
     elif k < 0.93:
@@ -100,7 +103,7 @@ def run(ctx):
     quick = ctx.tier == "quick"
     ctx.rule = ("frames up to 8 x 24 with distinct integer pixels on an exact grid, both orientations, synthetic or loaded from .fil/.h5; every "
                 "slice [l,r); de-drift by 0, +-1/8 .. +-6 channels per step (argument or metadata), including rates beyond the frame's limit; "
-                "integrate over either axis with sum/mean and every axis/mode alias, as array or frame; spectrum / timeseries; each with and without normalisation (ramp data, half of them with an outlier); "
+                "de-drifting also of frames whose time axis starts at 37.5 / 3600 / 1.7e9 s (as a consolidated cadence's does); integrate over either axis with sum/mean and every axis/mode alias, as array or frame; spectrum / timeseries; each with and without normalisation (ramp data, half of them with an outlier); "
                 "non-trivial = derived object has more than one pixel; distinct = distinct case")
     ctx.assumptions = ["normalisation (normalize=True) is compared to 1e-9 with (x - m) / s for m, s from an independent 3-sigma clipping about the median (the model and its theorems cover the un-normalised integration)", "means over non-power-of-two counts are compared to 1e-12"]
     cases = corpus() + [gen_case(rng) for _ in range(200 if quick else 4000)]
@@ -113,7 +116,7 @@ def run(ctx):
         ctx.model_error(str(ex)[-2000:]); vals = [None] * len(cases)
     for c, r, mv in zip(cases, impl, vals):
         op = c["op"]
-        ctx.tally("op", op[0]); ctx.tally("parent", c["from_file"] or "synthetic"); ctx.tally("orientation", "asc" if c["ascending"] else "desc")
+        ctx.tally("op", op[0]); ctx.tally("parent", c["from_file"] or "synthetic"); ctx.tally("orientation", "asc" if c["ascending"] else "desc"); ctx.tally("time_axis_origin", c.get("ts_origin", 0))
         T, F, df, dt, fmin = c["T"], c["F"], c["df"], c["dt"], c["fmin"]
         data = c["data"]
 
